@@ -11,7 +11,8 @@
 typedef struct { void *(*_malloc)(size_t); void *(*_calloc)(size_t, size_t); void (*_free)(void *); } m_memhook_t;
 extern m_memhook_t memhook;
 
-enum { O_NEW, O_REF, O_UNREF, O_UNREFP, O_SIZE, O_NULLS, O_NEWSZ };
+enum { O_NEW, O_REF, O_UNREF, O_UNREFP, O_SIZE, O_NULLS, O_NEWSZ, O_MANYREF };
+#define MANY 140000        /* crosses 2^8, 2^16 and 2^17 outstanding references */
 #define NS 3
 static const size_t SZ[] = { 0, 1, 7, 8, 15, 16, 17, 24, 40, 100, 4096 };
 #define NSZ ((int)(sizeof SZ / sizeof *SZ))
@@ -138,6 +139,14 @@ static void h_apply(op_t op) {
         size_t s = m_mem_size(B[i].p); sx_obs(s);
         if (s != B[i].size) sx_fail("MEM.size", "MEM.size", "m_mem_size=%zu, requested %zu", s, B[i].size);
         break; }
+    case O_MANYREF: {       /* every reference count 1..MANY on the way up and down: alive until the very last unref */
+        for (int k = 0; k < MANY; k++) { if (m_mem_ref(B[i].p) != B[i].p) sx_fail("MEM.ref", "MEM.ref|ret", "m_mem_ref returned a different pointer"); B[i].refs++; }
+        if (B[i].dtor_calls || B[i].freed) sx_fail("MEM.alive", "MEM.alive|many", "block destroyed while taking references");
+        for (int k = 0; k < MANY; k++) {
+            B[i].refs--; m_mem_unref(B[i].p);
+            if (B[i].dtor_calls || B[i].freed) sx_fail("MEM.alive", "MEM.alive|many", "block destroyed although %d references are still held (after dropping %d of %d additional references)", B[i].refs, k + 1, MANY);
+        }
+        check_pattern(i, "after many ref/unref"); break; }
     case O_NULLS: {
         void *n = NULL;
         if (m_mem_ref(NULL) || m_mem_unref(NULL) || m_mem_size(NULL)) sx_fail("MEM.null", "MEM.null", "NULL not tolerated");
@@ -208,6 +217,7 @@ static void h_fmt(op_t op, char *b, size_t cap) {
     case O_UNREFP: snprintf(b, cap, "unrefp(slot%d)", op.a); break;
     case O_SIZE: snprintf(b, cap, "size(slot%d)", op.a); break;
     case O_NULLS: snprintf(b, cap, "null-args"); break;
+    case O_MANYREF: snprintf(b, cap, "ref x%d then unref x%d (slot%d)", MANY, MANY, op.a); break;
     default: snprintf(b, cap, "?"); }
 }
 
@@ -223,9 +233,15 @@ static void h_extra(void) {
             if (sx_run_extra(&h) && sx_viol >= sx_max_viol) return;
         }
 }
+static void h_extra2(void) {
+    for (int d = 0; d < 2; d++) { hist_t h = {0};
+        h.ops[h.n++] = (op_t){O_NEW, 0, 5, d}; h.ops[h.n++] = (op_t){O_MANYREF, 0, 0, 0}; h.ops[h.n++] = (op_t){O_REF, 0, 0, 0}; h.ops[h.n++] = (op_t){O_UNREF, 0, 0, 0};
+        sx_run_extra(&h); }
+}
+static void h_extra_all(void) { h_extra(); h_extra2(); }
 static const char *h_cfg(void) { return "3 slots, 11 size classes, all sizes 0..4096"; }
 
 int main(int argc, char **argv) {
-    static const sx_harness H = { "c10_mem", NULL, h_reset, h_enabled, h_apply, h_canon, 2, h_probe, h_cleanup, h_fmt, h_cfg, h_extra };
+    static const sx_harness H = { "c10_mem", NULL, h_reset, h_enabled, h_apply, h_canon, 2, h_probe, h_cleanup, h_fmt, h_cfg, h_extra_all };
     return sx_main(argc, argv, &H);
 }
